@@ -8,7 +8,7 @@ ALL="C01 C02 C03 C04 C05 C06 C07 C08 C09 C10 C11 C13 C14 C15 C16"
 rsync -a --exclude target /verif/sim/ /tmp/sweep/sim/ && sed -i 's|path = "/repo"|path = "/tmp/sweep/repo"|' /tmp/sweep/sim/Cargo.toml
 for seed in "$@"; do
   id="${seed%-*}"; n="${seed#*-}"; src="/tmp/seed-$id/OUT"
-  case "$seed" in R2-*) id="${seed#R2-}"; n=1; src="/tmp/seed2-$id/OUT";; R3-*) id="${seed#R3-}"; n=1; src="/tmp/seed3-$id/OUT";; R4-*) id="${seed#R4-}"; n=1; src="/tmp/seed4-$id/OUT";; R5-*) id="${seed#R5-}"; n=1; src="/tmp/seed5-$id/OUT";; esac
+  case "$seed" in R2-*) id="${seed#R2-}"; n=1; src="/tmp/seed2-$id/OUT";; R3-*) id="${seed#R3-}"; n=1; src="/tmp/seed3-$id/OUT";; R4-*) id="${seed#R4-}"; n=1; src="/tmp/seed4-$id/OUT";; R5-*) id="${seed#R5-}"; n=1; src="/tmp/seed5-$id/OUT";; R6-*) id="${seed#R6-}"; n=1; src="/tmp/seed6-$id/OUT";; esac
   dst="/verif/seeded/$seed"; mkdir -p "$dst"
   cp "$src/bug$n.diff" "$dst/patch.diff"; cp "$src/demo$n.rs" "$dst/demo.rs"
   git -C /tmp/sweep/repo checkout -q -- . ; git -C /tmp/sweep/repo reset -q --hard "$(git -C /repo rev-parse HEAD)"
